@@ -45,7 +45,7 @@ func init() {
 			if m.Counters["docs_large"] == 0 {
 				out = append(out, "no document with output > 8192 bytes")
 			}
-			for _, v := range []string{"plain", "bufio16", "bufio4096", "bufio65536", "every-call", "one-byte", "fail-once", "render-plain", "uncomparable-error"} {
+			for _, v := range []string{"plain", "bufio16", "bufio4096", "bufio65536", "every-call", "one-byte", "fail-once", "render-plain", "uncomparable-error", "string-writer", "buffer-like", "custom-bufwriter"} {
 				if m.Sets["writer_variants"][v] == 0 {
 					out = append(out, "writer variant never used: "+v)
 				}
@@ -109,6 +109,49 @@ func (w *failWriter) Write(p []byte) (int, error) {
 	return room, errC14
 }
 
+// Writers that offer more than Write. goldmark may look for optional methods on the destination (io.StringWriter,
+// io.ByteWriter, a Flush method, the whole util.BufWriter set); whatever route it then takes, a failure must still surface.
+// All methods share the byte budget of the embedded failWriter and fail the same way.
+type stringFailWriter struct{ *failWriter }
+
+func (w stringFailWriter) WriteString(s string) (int, error) { return w.Write([]byte(s)) }
+
+type bufferLikeFailWriter struct{ *failWriter }
+
+func (w bufferLikeFailWriter) WriteString(s string) (int, error) { return w.Write([]byte(s)) }
+func (w bufferLikeFailWriter) WriteByte(b byte) error {
+	_, err := w.Write([]byte{b})
+	return err
+}
+func (w bufferLikeFailWriter) WriteRune(r rune) (int, error) { return w.Write([]byte(string(r))) }
+
+// customBufWriter implements util.BufWriter itself, unbuffered, with bufio's contract: the first error sticks, every later
+// write returns it, and so does Flush.
+type customBufWriter struct {
+	*failWriter
+	sticky error
+}
+
+func (w *customBufWriter) Write(p []byte) (int, error) {
+	if w.sticky != nil {
+		return 0, w.sticky
+	}
+	n, err := w.failWriter.Write(p)
+	if err != nil {
+		w.sticky = err
+	}
+	return n, err
+}
+func (w *customBufWriter) WriteString(s string) (int, error) { return w.Write([]byte(s)) }
+func (w *customBufWriter) WriteByte(b byte) error {
+	_, err := w.Write([]byte{b})
+	return err
+}
+func (w *customBufWriter) WriteRune(r rune) (int, error) { return w.Write([]byte(string(r))) }
+func (w *customBufWriter) Available() int                { return 0 }
+func (w *customBufWriter) Buffered() int                 { return 0 }
+func (w *customBufWriter) Flush() error                  { return w.sticky }
+
 // oneByteWriter is legal but slow: it accepts everything one byte per underlying call (never fails).
 type oneByteWriter struct{ got []byte }
 
@@ -163,7 +206,10 @@ func c14Violation(c *core.Ctx, k c14Case, variant string, off int, class, detail
 }
 
 // c14Run executes one faulted conversion and applies the oracle.
-func c14Run(c *core.Ctx, k c14Case, variant string, off int) {
+func c14Run(c *core.Ctx, k c14Case, variant string, off int) { c14RunAs(c, k, variant, off, variant) }
+
+// c14RunAs: label is what violations are filed under (the writer variant, or the variant within a history).
+func c14RunAs(c *core.Ctx, k c14Case, variant string, off int, label string) {
 	fw := &failWriter{limit: off}
 	var dst io.Writer = fw
 	var flush func() error
@@ -176,6 +222,15 @@ func c14Run(c *core.Ctx, k c14Case, variant string, off int) {
 		size := map[string]int{"bufio16": 16, "bufio4096": 4096, "bufio65536": 65536}[variant]
 		bw := bufio.NewWriterSize(fw, size)
 		dst = bw // a util.BufWriter: Render uses it directly and flushes it
+		useRender = off%2 == 0
+	case "string-writer":
+		dst = stringFailWriter{fw}
+		useRender = off%3 == 0
+	case "buffer-like":
+		dst = bufferLikeFailWriter{fw}
+		useRender = off%3 == 0
+	case "custom-bufwriter":
+		dst = &customBufWriter{failWriter: fw}
 		useRender = off%2 == 0
 	case "every-call":
 		fw.everyErr = true
@@ -202,7 +257,7 @@ func c14Run(c *core.Ctx, k c14Case, variant string, off int) {
 		c.Sig(core.Hash64(k.src, []byte(variant), []byte(fmt.Sprint(off))))
 	}
 	if pv != nil {
-		c14Violation(c, k, variant, off, "panic-on-writer-failure", fmt.Sprintf("panic: %v\n%s", pv, trimStack(st)))
+		c14Violation(c, k, label, off, "panic-on-writer-failure", fmt.Sprintf("panic: %v\n%s", pv, trimStack(st)))
 		return
 	}
 	mustFail := off < len(k.ref) || variant == "every-call" && len(k.ref) > 0
@@ -212,7 +267,7 @@ func c14Run(c *core.Ctx, k c14Case, variant string, off int) {
 	if mustFail {
 		c.Count("faults_hit", 1)
 		if err == nil {
-			c14Violation(c, k, variant, off, "success-reported-after-writer-failure", fmt.Sprintf("returned nil although the writer failed %d time(s) and accepted only %d bytes", fw.failed, len(fw.got)))
+			c14Violation(c, k, label, off, "success-reported-after-writer-failure", fmt.Sprintf("returned nil although the writer failed %d time(s) and accepted only %d bytes", fw.failed, len(fw.got)))
 			return
 		}
 		if want := error(errC14); !errors.Is(err, func() error {
@@ -221,13 +276,13 @@ func c14Run(c *core.Ctx, k c14Case, variant string, off int) {
 			}
 			return want
 		}()) {
-			c14Violation(c, k, variant, off, "error-not-wrapping-writer-error", fmt.Sprintf("returned %q which does not wrap the writer's error", err.Error()))
+			c14Violation(c, k, label, off, "error-not-wrapping-writer-error", fmt.Sprintf("returned %q which does not wrap the writer's error", err.Error()))
 			return
 		}
 	} else {
 		c.Count("faults_not_reached", 1)
 		if err != nil {
-			c14Violation(c, k, variant, off, "error-without-writer-failure", fmt.Sprintf("returned %q although the writer never failed", err.Error()))
+			c14Violation(c, k, label, off, "error-without-writer-failure", fmt.Sprintf("returned %q although the writer never failed", err.Error()))
 			return
 		}
 	}
@@ -238,12 +293,12 @@ func c14Run(c *core.Ctx, k c14Case, variant string, off int) {
 			pre = len(k.ref)
 		}
 		if len(fw.got) < pre || !bytes.Equal(fw.got[:pre], k.ref[:pre]) {
-			c14Violation(c, k, variant, off, "accepted-bytes-not-a-prefix", fmt.Sprintf("bytes accepted before the failure differ from the fault-free output: %s", q(fw.got)))
+			c14Violation(c, k, label, off, "accepted-bytes-not-a-prefix", fmt.Sprintf("bytes accepted before the failure differ from the fault-free output: %s", q(fw.got)))
 		}
 		return
 	}
 	if !bytes.HasPrefix(k.ref, fw.got) {
-		c14Violation(c, k, variant, off, "accepted-bytes-not-a-prefix", fmt.Sprintf("accepted %s which is not a prefix of the fault-free output %s", q(fw.got), q(k.ref)))
+		c14Violation(c, k, label, off, "accepted-bytes-not-a-prefix", fmt.Sprintf("accepted %s which is not a prefix of the fault-free output %s", q(fw.got), q(k.ref)))
 	}
 }
 
@@ -276,14 +331,106 @@ func (r *c14ErrRenderer) RegisterFuncs(reg renderer.NodeRendererFuncRegisterer) 
 	})
 }
 
+// c14NestRenderer overrides the thematic break: mode 0 writes <hr>, mode 1 fails with errC14Node, mode 2 first renders
+// another (already parsed) document on the SAME Markdown instance into a buffer of its own - a Render nested in a Render, as
+// a node renderer that embeds a rendered sub-document does - and then writes <hr>.
+type c14NestRenderer struct {
+	md       *goldmark.Markdown
+	mode     *int
+	innerSrc []byte
+	innerDoc ast.Node
+	nested   *int
+}
+
+func (r *c14NestRenderer) RegisterFuncs(reg renderer.NodeRendererFuncRegisterer) {
+	reg.Register(ast.KindThematicBreak, func(w util.BufWriter, source []byte, n ast.Node, entering bool) (ast.WalkStatus, error) {
+		if !entering {
+			return ast.WalkContinue, nil
+		}
+		switch *r.mode {
+		case 1:
+			return ast.WalkContinue, errC14Node
+		case 2:
+			var inner bytes.Buffer
+			_ = (*r.md).Renderer().Render(&inner, r.innerSrc, r.innerDoc)
+			*r.nested++
+		}
+		_, _ = w.WriteString("<hr>\n")
+		return ast.WalkContinue, nil
+	})
+}
+
+// c14Histories: failures in a history. One instance first goes through conversions that END WITH A NODE RENDERER ERROR (the
+// error exits of Render), then converts documents into failing writers while a node renderer renders a sub-document on the
+// same instance in the middle of the outer Render. The oracle is the one of every other case: the writer's failure surfaces,
+// what the writer accepted is a prefix.
+func c14Histories(c *core.Ctx) {
+	r := c.Rng
+	n := c.PerShard(c.N(64, 3200))
+	for h := 0; h < n; h++ {
+		mode, nested := 0, 0
+		var md goldmark.Markdown
+		nr := &c14NestRenderer{md: &md, mode: &mode, nested: &nested, innerSrc: []byte("inner *doc* with `code`\n\n- and a list\n")}
+		md = goldmark.New(goldmark.WithRendererOptions(renderer.WithNodeRenderers(util.Prioritized(nr, 10))))
+		nr.innerDoc = md.Parser().Parse(text.NewReader(nr.innerSrc))
+		// D: enough output before the break that the outer writer has been flushed at least once, and some after it
+		before := 100 + r.Intn(12000)
+		if h%3 == 0 {
+			before = 4096 + r.Intn(600)
+		}
+		src := []byte(strings.Repeat("lorem *ipsum* dolor\n", before/28+1) + "\n***\n\ntail `x`\n\n***\n\nend\n")
+		mode = 0
+		ref := convert(md, src)
+		if !ref.OK() {
+			continue
+		}
+		k := c14Case{md: md, cfgName: "core+probe(thematic break: fail / nested render)", src: src, ref: ref.Out}
+		nerr := r.Intn(4)
+		if h%5 == 0 {
+			nerr = 0
+		}
+		for e := 0; e < nerr; e++ {
+			mode = 1
+			var sink bytes.Buffer
+			var err error
+			pv, st := core.Try(func() { err = md.Convert([]byte("a\n\n***\n\nb\n"), &sink) })
+			c.Eval()
+			c.Count("history_conversions_ending_with_node_renderer_error", 1)
+			if pv != nil {
+				c.Violation(&core.Violation{Class: "panic-on-renderer-error", Locus: "node-renderer:history", Input: src, Detail: fmt.Sprintf("%v\n%s", pv, trimStack(st))})
+			} else if !errors.Is(err, errC14Node) {
+				c.Violation(&core.Violation{Class: "renderer-error-lost", Locus: "node-renderer:history", Input: src, Detail: fmt.Sprintf("the node renderer failed but Convert returned %v", err)})
+			}
+		}
+		offs, _ := c14Offsets(c, len(ref.Out))
+		if len(offs) > 160 {
+			r.Shuffle(len(offs), func(i, j int) { offs[i], offs[j] = offs[j], offs[i] })
+			offs = offs[:160]
+		}
+		for i, off := range offs {
+			mode = 2
+			if i%4 == 3 {
+				mode = 0
+			}
+			variant := []string{"plain", "render-plain", "bufio4096", "buffer-like"}[i%4]
+			tag := fmt.Sprintf("history(%d node renderer errors before; nested render=%v):%s", nerr, mode == 2, variant)
+			c14RunAs(c, k, variant, off, tag)
+			c.Count("history_faulted_conversions", 1)
+		}
+		c.Count("history_nested_renders", int64(nested))
+		c.Count("histories", 1)
+	}
+}
+
 func runC14(c *core.Ctx) {
+	defer c14Histories(c)
 	corpus := loadCorpus(c)
 	r := c.Rng
 	specs := []cfg.Spec{{Ext: cfg.ExtCore}, {Ext: cfg.ExtGFM, XHTML: true}, {Ext: cfg.ExtAll, AutoHeadingID: true, Attribute: true}, {Ext: cfg.ExtFootnote, Unsafe: true},
 		{Ext: cfg.ExtAll, Unsafe: true, HardWraps: true}, {Ext: cfg.ExtTypographer}}
 	pool := cfg.NewPool()
 	ndocs := c.PerShard(c.N(640, 32000))
-	variants := []string{"plain", "render-plain", "bufio16", "bufio4096", "bufio65536", "fail-once", "uncomparable-error"}
+	variants := []string{"plain", "render-plain", "bufio16", "bufio4096", "bufio65536", "fail-once", "uncomparable-error", "string-writer", "buffer-like", "custom-bufwriter"}
 	for i := 0; i < ndocs; i++ {
 		var src []byte
 		switch {
